@@ -49,7 +49,14 @@ def get_instr_expr_args(l, args, my_eip):
     info = l
     if l.m.name in ['jmp']:
         if isinstance(args[0], ExprInt):
-            e = mnemo_func[l.m.name](info, args[0])
+            dst = args[0]
+            if dst.get_size() == 8:
+                # short jump (EB cb): the 8-bit displacement is signed;
+                # extend it like the displacements of jcc/call/loop
+                v = int(dst.arg)
+                v -= (v & 0x80) << 1
+                dst = ExprInt(uint32(v))
+            e = mnemo_func[l.m.name](info, dst)
         else:
             e = mnemo_func[l.m.name](info, *args)
     elif l.m.name in jcc:
